@@ -44,6 +44,40 @@ func catch(f func()) (p bool) {
 	return false
 }
 
+//go:noinline
+func deep(d int, x uint64) string {
+	if d > 0 {
+		var pad [64]byte
+		pad[d%64] = byte(d)
+		r := deep(d-1, x)
+		if pad[d%64] != byte(d) {
+			return "padding changed"
+		}
+		return r
+	}
+	var b [16]byte
+	for i := range b {
+		b[i] = 0xA5
+	}
+	machine.UInt64Put(b[:8], x)
+	for k := 0; k < 8; k++ {
+		if b[k] != byte(x>>(8*uint(k))) {
+			return fmt.Sprintf("UInt64Put(%d) left byte %d = %d", x, k, b[k])
+		}
+	}
+	for k := 8; k < 16; k++ {
+		if b[k] != 0xA5 {
+			return fmt.Sprintf("UInt64Put(%d) changed byte %d behind the frame", x, k)
+		}
+	}
+	var c [8]byte
+	machine.UInt32Put(c[:4], uint32(x))
+	if machine.UInt32Get(c[:4]) != uint32(x) || machine.UInt64Get(b[:8]) != x {
+		return "Get does not invert Put"
+	}
+	return ""
+}
+
 func main() {
 	b, err := os.ReadFile(os.Args[1])
 	if err != nil {
@@ -95,6 +129,27 @@ func main() {
 			os.Exit(1)
 		}
 		n++
+	}
+	// a refused call must leave the primitives usable (no lock or state left behind)
+	short := make([]byte, 3)
+	catch(func() { machine.UInt64Put(short, 1) })
+	catch(func() { machine.UInt64Get(short) })
+	catch(func() { machine.UInt32Put(short, 1) })
+	catch(func() { machine.UInt32Get(short) })
+	ok8 := make([]byte, 8)
+	machine.UInt64Put(ok8, 0x0102030405060708)
+	if machine.UInt64Get(ok8) != 0x0102030405060708 || machine.UInt32Get(ok8) != 0x05060708 {
+		fmt.Println("MISMATCH after refused calls: Put/Get of a good buffer no longer round-trips")
+		os.Exit(1)
+	}
+	// buffers that live on the caller's stack, at many stack depths (the runtime moves stacks when they grow)
+	for d := 0; d < 3000; d += 7 {
+		res := make(chan string, 1)
+		go func(d int) { res <- deep(d, uint64(d)*0x9E3779B97F4A7C15+1) }(d)
+		if msg := <-res; msg != "" {
+			fmt.Printf("MISMATCH with the buffer on the caller's stack at call depth %d: %s\n", d, msg)
+			os.Exit(1)
+		}
 	}
 	fmt.Printf("PRIMS386-DONE %d cases\n", n)
 }
